@@ -92,7 +92,7 @@ theorem multi_step (pre t : Bytes) (rr : Nat) (b0 : UInt8) (tl : Bytes) (hpre : 
   · intro X
     have e : pre ++ X = b0 :: (tl ++ X) := by rw [hpre]; rfl
     have h92 : b0 ≠ 92 := by intro h; subst h; simp at hb
-    rw [e, unquote]
+    rw [e, unquote.eq_def]
     simp only [beq_iff_eq, h92, if_false, hnlt]
     rw [← e, hdec X]
     simp only [henc]
